@@ -41,7 +41,7 @@ def run(check, pool, Task, with_wrappers=True):
     validate.apply(check, ['segments', 'pip', 'point_kernels'])
     tier = check.tier
     plan = THOROUGH if tier == 'thorough' else QUICK
-    seeds = 4 if tier == 'thorough' else 2
+    seeds = 4 if tier == 'thorough' else 3
     cap = 900 if tier == 'thorough' else 400
     check.bounds.update({'coordinates': '|v| <= 2^25', 'kernel_structures': {k: [list(x) if isinstance(x, tuple) else x for x in v] for k, v in plan.items()}})
     check.assumptions += ['polygon rings closed; the point lies on no ring segment (boundary points are outside the guarantee)',
